@@ -13,6 +13,12 @@ binding:   (a) spec -> code: the complete LTS of the reference (EDGE/STATE lines
            (b) code -> spec: histories recorded from the real class over much larger alphabets
                are validated by TLC against spec/TraceDebtags.tla; corrupted control traces
                must be rejected.
+sources:   copy() / reverse_copy() (and the pickle round trip) promise an INDEPENDENT collection
+           (fix 86ec833, finding C20-shallow-copy): the source object of the last copy is kept
+           and after every later call on the derived object its projection must still be the
+           model state it had when it was copied (spec: src/sabs, SourceRefines; negative control
+           ShallowCopy = TRUE -> TLC reports SourceInverse violated).  Sources of derivations
+           documented as sharing (reverse(), filter_*, choose_*) are not observed.
 known finding: a replayed behaviour that diverges from the (deviation-off) model is recorded as a
            trace and handed to TLC with DEV=1 -- only while C20-insert-chars is open.  If TLC
            explains it with the deviation-on operators, every deviation step is counted with
@@ -28,8 +34,8 @@ from lts import LTS
 
 MANIFEST = dict(
     technique="TLA+ spec (Debtags: reference relation (P,T,R) + implementation layer db/rdb with every DB method transcribed) model-checked closed by TLC; complete reference LTS replayed into debtags.DB; recorded histories validated by TLC (TraceDebtags); named deviation for the open known finding",
-    text="TLC explores the closed state space of the two-layer model (3 packages of length 1/2/3 x 3 tags in 2 facets, reads with and without tag filter, inserts, reverse, copies, choose/filter derivations, facet collection; thorough: 4 packages) and checks in every reachable state that the two dictionaries are mutually inverse, refine the reference relation and that the query operators agree with it; with the named deviation InsertNewTagStoresChars switched on TLC reports Inverse violated (negative control). Binding is two-way: every transition of the reference LTS plus random walks are replayed into the real DB class (all method variants: _copy forms, reverse/reverse_copy, copy/pickle) comparing both projected pair sets, key sets and all query methods with TLC's expected state; histories recorded from the real class with up to 30 packages and arbitrary names are validated by TLC. Divergences exactly explained by the known finding C20-insert-chars are counted as KNOWN-FINDING by TLC re-validating the history with the deviation-on operators; anything else is a violation.",
-    note="Small-scope: model constants 3 (4) packages x 3 tags; concretization of names is sampled. Domain: fresh package names for insert, each package on one line for read, facet_collection on facet::name tags, one current object (aliasing with abandoned source collections is not observed). Trusted: TLC, the projections of DB.db/DB.rdb, the concretizer. Corrupted control traces must be rejected in every run.",
+    text="TLC explores the closed state space of the two-layer model (3 packages of length 1/2/3 x 3 tags in 2 facets, reads with and without tag filter, inserts, reverse, copies, choose/filter derivations, facet collection; thorough: 4 packages) and checks in every reachable state that the two dictionaries are mutually inverse, refine the reference relation and that the query operators agree with it; with the named deviation InsertNewTagStoresChars switched on TLC reports Inverse violated (negative control). The source of every copy()/reverse_copy() is kept as a second observed object with explicit identities of shared set objects: it stays inverse and unchanged whatever is done to the copy (negative control ShallowCopy: TLC reports SourceInverse violated). Binding is two-way: every transition of the reference LTS plus random walks are replayed into the real DB class (all method variants: _copy forms, reverse/reverse_copy, copy/pickle) comparing both projected pair sets, key sets and all query methods with TLC's expected state, and the retained source of the last copy with the state it was copied in; histories recorded from the real class with up to 30 packages and arbitrary names are validated by TLC. Divergences exactly explained by the known finding C20-insert-chars are counted as KNOWN-FINDING by TLC re-validating the history with the deviation-on operators; anything else is a violation.",
+    note="Small-scope: model constants 3 (4) packages x 3 tags; concretization of names is sampled. Domain: fresh package names for insert, each package on one line for read, facet_collection on facet::name tags, one current object plus the retained source of the last copy()/reverse_copy() (sources of derivations documented as sharing are not observed; the model watches a source for 2 further calls, the binding until the next copy). Trusted: TLC, the projections of DB.db/DB.rdb, the concretizer. Corrupted control traces must be rejected in every run.",
     design="5 (C20)")
 
 KNOWN = "C20-insert-chars"
@@ -177,9 +183,15 @@ def enc_dict(d):
     return [[enc(k), enc_set(d[k])] for k in sorted(d)]
 
 
-def event_of(st, exc, db, rdb, answers=None):
-    """trace event for TraceDebtags from a call descriptor and what was observed"""
-    e = {"op": st["op"], "exc": exc, "db": enc_dict(db), "rdb": enc_dict(rdb)}
+COPY_OPS = ("copy", "reverse_copy", "pickle")
+
+
+def event_of(st, exc, db, rdb, answers=None, source=None):
+    """trace event for TraceDebtags from a call descriptor and what was observed;
+    source = (db, rdb) projection of the retained source of the last copy, or None"""
+    e = {"op": st["op"], "exc": exc, "db": enc_dict(db), "rdb": enc_dict(rdb), "slive": source is not None}
+    if source is not None:
+        e["sdb"], e["srdb"] = enc_dict(source[0]), enc_dict(source[1])
     op = st["op"]
     if op == "read":
         e["lines"] = [{"pkgs": enc_set(p), "tags": enc_set(t)} for p, t in st["lines"]]
@@ -207,18 +219,28 @@ def execute(plan):
     returns (events, problem): problem is a message when the state could not be projected"""
     from debian import debtags
     cur = debtags.DB()
+    srcobj = None          # the object the last copy()/reverse_copy()/pickle was taken from
     events = []
     for st in plan:
         if st["op"] == "q":
             answers, exc = ask(cur, st["names"])
         else:
             answers = None
+            before = cur
             cur, exc = do_call(cur, st)
+            if st["op"] in COPY_OPS and not exc:
+                srcobj = before
         db, rdb, bad = proj(cur)
         if bad:
             return events, "after %s: %s" % (describe(st), bad)
+        source = None
+        if srcobj is not None:
+            sdb, srdb, bad = proj(srcobj)
+            if bad:
+                return events, "after %s: source of the last copy: %s" % (describe(st), bad)
+            source = (sdb, srdb)
         try:
-            events.append(event_of(st, exc, db, rdb, answers))
+            events.append(event_of(st, exc, db, rdb, answers, source))
         except Exception as e:
             return events, "after %s: answers not encodable (%s: %s)" % (describe(st), type(e).__name__, e)
     return events, None
@@ -278,7 +300,7 @@ def concretize_step(e, conc, rng, junk):
     if op == "reverse":
         return {"op": rng.choice(["reverse", "reverse_copy"])}
     if op == "copy":
-        return {"op": rng.choice(["copy", "pickle"])}
+        return {"op": rng.choice(["copy", "copy", "pickle"])}
     if op == "facet":
         return {"op": "facet"}
     S = sorted(conc.names(e["s"]))
@@ -301,23 +323,22 @@ def cstate(s, conc):
     return (conc.names(s["P"]), conc.names(s["T"]), {(conc.name(p), conc.name(t)) for p, t in s["R"]})
 
 
-def compare_state(cur, s, conc):
+def compare_state(cur, s, conc, who=""):
     """verdict observables 1: key sets and the pair sets projected from db and from rdb = model"""
     db, rdb, bad = proj(cur)
     if bad:
-        return bad
+        return who + bad
     P, T, R = cstate(s, conc)
     if set(db) != P:
-        return "packages (keys of db) are %r, model says %r" % (sorted(db), sorted(P))
+        return "%spackages (keys of db) are %r, model says %r" % (who, sorted(db), sorted(P))
     if set(rdb) != T:
-        return "tags (keys of rdb) are %r, model says %r" % (sorted(rdb), sorted(T))
+        return "%stags (keys of rdb) are %r, model says %r" % (who, sorted(rdb), sorted(T))
     pd = pairs(db)
     pr = {(p, t) for t, p in pairs(rdb)}
     if pd != R:
-        return "pairs in db are %r, model says %r" % (sorted(pd), sorted(R))
+        return "%spairs in db are %r, model says %r" % (who, sorted(pd), sorted(R))
     if pr != R:
-        return "pairs in rdb are %r (package, tag), model says %r%s" % (
-            sorted(pr), sorted(R), "" if pd != pr else "")
+        return "%spairs in rdb are %r (package, tag), model says %r" % (who, sorted(pr), sorted(R))
     return None
 
 
@@ -360,17 +381,24 @@ def compare_queries(cur, table, conc, rng, junk):
     return None
 
 
-def replay_path(plan, tos, tables, conc, rng, junk, deep):
+def replay_path(plan, tos, tables, conc, rng, junk, deep, froms=None):
     """step the real object through `plan`, comparing with the model states `tos` (and the query
-    tables) after each call.  returns None or (step index, message) of the first divergence"""
+    tables) after each call; the source of the last copy must stay the model state `froms[i]` it
+    was copied in.  returns None or (step index, message) of the first divergence"""
     from debian import debtags
     cur = debtags.DB()
+    srcobj, srcstate, srcstep = None, None, 0
     n = len(plan)
     for i, st in enumerate(plan):
+        before = cur
         cur, exc = do_call(cur, st)
         if exc:
             return i, "step %d %s raised %s" % (i + 1, describe(st), exc)
+        if st["op"] in COPY_OPS and froms is not None:
+            srcobj, srcstate, srcstep = before, froms[i], i + 1
         m = compare_state(cur, tos[i], conc)
+        if m is None and srcobj is not None:
+            m = compare_state(srcobj, srcstate, conc, "the SOURCE of the %s of step %d changed: " % (plan[srcstep - 1]["op"], srcstep))
         if m is None and (deep or i == n - 1):
             m = compare_queries(cur, tables[i], conc, rng, junk)
         if m:
@@ -415,6 +443,9 @@ def corrupt(t, how):
         if how == "exc" and e["op"] in ("copy", "reverse", "reverse_copy", "filter_t", "filter_p") and not e["exc"]:
             e["exc"] = "KeyError"
             return {"events": evs[:i + 1]}
+        if how == "source-changed" and e["slive"] and e["op"] not in COPY_OPS and e["srdb"]:
+            e["srdb"][0][1] = e["srdb"][0][1] + [[0x7a, 0x7a]]
+            return {"events": evs[:i + 1]}
         if how == "extra-key" and e["op"] != "q" and not e["exc"]:
             e["db"] = e["db"] + [[[0x7a, 0x7a, 0x7a, 0x7a], []]]
             return {"events": evs[:i + 1]}
@@ -423,7 +454,7 @@ def corrupt(t, how):
 
 def make_controls(traces):
     out = []
-    for how in ("drop-member", "card", "fake-dev", "exc", "extra-key"):
+    for how in ("drop-member", "card", "fake-dev", "exc", "extra-key", "source-changed"):
         for t in traces:
             c = corrupt(t, how)
             if c:
@@ -639,7 +670,7 @@ def run(ctx):
     ctx.assumptions += [
         "model constants: packages p/ab/cdc (lengths 1,2,3) x tags fg::h fg::i j::h (thorough: also 4 packages, no LTS); closed state space: histories of any length over these names",
         "domain: insert gets a fresh package name; read gets each package on one line; facet_collection on facet::name tags; choose_packages_copy gets present packages (the rest is executed, any outcome accepted)",
-        "one current object per history: a derivation replaces it (aliasing with abandoned source collections is not observed)",
+        "one current object per history plus the retained source of the last copy()/reverse_copy()/pickle round trip (must stay unchanged); sources of derivations documented as sharing are not observed",
         "concretization of names is sampled (seeded); trusted: TLC, the projection of DB.db/DB.rdb, the concretizer",
         "known finding %s is %s: divergences TLC explains with the deviation-on operators are %s"
         % (KNOWN, "open" if known_open else "NOT open", "counted as KNOWN-FINDING" if known_open else "violations"),
@@ -653,6 +684,11 @@ def run(ctx):
         g, tables, r_lts = load_lts(ctx, "MC_Debtags_lts.cfg")            # 3 packages x 3 tags
         r_closed = r_lts
         r_big = ctx.tlc_must_hold("Debtags", "MC_Debtags_big.cfg", workers=8)
+    # retained source of copies: closed configuration + negative control (sets shared -> violation)
+    r_src = ctx.tlc_must_hold("Debtags", "MC_Debtags_src_quick.cfg" if quick else "MC_Debtags_src.cfg", workers=8)
+    r_sh = ctx.tlc("Debtags", "MC_Debtags_shallow.cfg", count=False, workers=2)
+    if r_sh.violated not in ("SourceInverse", "SourceRefines"):
+        raise core.MachineryError("negative control failed: ShallowCopy gives %r, expected SourceInverse violated" % (r_sh.violated,))
     # spec-level negative control: with the named deviation ON TLC must report Inverse violated
     r_dev = ctx.tlc("Debtags", "MC_Debtags_dev.cfg", count=False, workers=2)
     if r_dev.violated != "Inverse":
@@ -666,7 +702,9 @@ def run(ctx):
     ctx.extra["model_constants"] = {"PK": ["p", "ab", "cdc"], "PK_of_replayed_LTS": ["p", "aba"] if quick else ["p", "ab", "cdc"],
                                     "FT": ["fg::h", "fg::i", "j::h"],
                                     "ReadDrops": [[], ["fg::h"], ["fg::i", "j::h"]], "deviation": "InsertNewTagStoresChars=FALSE"}
-    ctx.extra["negative_control_spec"] = "InsertNewTagStoresChars=TRUE -> TLC: invariant %s violated" % r_dev.violated
+    ctx.extra["negative_control_spec"] = ["InsertNewTagStoresChars=TRUE -> TLC: invariant %s violated" % r_dev.violated,
+                                          "ShallowCopy=TRUE -> TLC: invariant %s violated" % r_sh.violated]
+    ctx.extra["retained_source_config_states"] = r_src.distinct
 
     paths = g.paths()
     model_names = sorted({tuple(n) for t in tables.values() for n in t["names"]})
@@ -684,7 +722,7 @@ def run(ctx):
         tos = [e["to"] for e in path]
         tabs = [tables[e["_t"]] for e in path]
         n_replayed += 1
-        d = replay_path(plan, tos, tabs, conc, rng, junk, deep)
+        d = replay_path(plan, tos, tabs, conc, rng, junk, deep, [e["from"] for e in path])
         if d is None:
             return
         names = [conc.name(n) for n in model_names]
@@ -698,6 +736,7 @@ def run(ctx):
         else:
             diverged.append((case, d[1], {"events": events}))
 
+    copy_edge = {k: [x for x in outs if x["op"] == "copy"][0] for k, outs in g.out.items()}
     # 2a. every transition of the LTS (prefix = shortest path from DB())
     nconc = 2
     concs = [Conc(canonical=True)] + [Conc(rng) for _ in range(24)]
@@ -706,7 +745,11 @@ def run(ctx):
             break
         for c in range(nconc):
             conc = concs[0] if c == 0 else concs[1 + (idx % 24)]
-            one(paths[e["_f"]] + [e], conc, False, "edge")
+            path = paths[e["_f"]] + [e]
+            if c == 1 and e["op"] != "copy":
+                # the same transition taken on a COPY of the collection: its source must not notice
+                path = paths[e["_f"]] + [copy_edge[e["_f"]], e]
+            one(path, conc, False, "edge")
         ctx.case_seen(("edge", e["_f"], e["op"], json.dumps(e["args"])), e["_f"] != e["_t"])
     mid = g.edges[len(g.edges) // 3]
     ctx.sample("lts edge: " + json.dumps(strip_edge(mid), separators=(",", ":")))
@@ -807,6 +850,9 @@ def brief(ev):
         out["s"] = [dn(x) for x in ev["s"]]
     out["db"] = {dn(k): [dn(m) for m in v] for k, v in ev["db"]}
     out["rdb"] = {dn(k): [dn(m) for m in v] for k, v in ev["rdb"]}
+    if ev.get("slive"):
+        out["source_of_last_copy"] = {"db": {dn(k): [dn(m) for m in v] for k, v in ev["sdb"]},
+                                      "rdb": {dn(k): [dn(m) for m in v] for k, v in ev["srdb"]}}
     if ev["op"] == "q":
         out["answers"] = {"pc": ev["pc"], "tc": ev["tc"], "names": [dn(x) for x in ev["qn"]], "card": ev["qcard"]}
     return out
@@ -819,7 +865,8 @@ def replay(ctx, case):
     if case["kind"] == "path":
         conc = Conc(cmap=case["conc"])
         junk = list(JUNK)
-        d = replay_path(plan, [e["to"] for e in case["path"]], case["tables"], conc, random.Random(0), junk, True)
+        d = replay_path(plan, [e["to"] for e in case["path"]], case["tables"], conc, random.Random(0), junk, True,
+                        [e["from"] for e in case["path"]])
         if d is None:
             return None
         names = sorted({conc.name(n) for t in case["tables"] for n in t["names"]})
